@@ -1,7 +1,7 @@
 (** C04 — proofs about the MODEL (Broadcast.v).
     Fragment [jag]: 1-d integer NumpyArray leaves under ListOffsetArray / ListArray (any index width, any
     offset origin, gaps, unreachable data) and IndexedOptionArray (not directly inside another one). *)
-From AwkV Require Import Proofs_Lists Proofs_ToList Proofs_Typing Proofs_Carry.
+From AwkV Require Import LayoutInd Proofs_Lists Proofs_ToList Proofs_Typing Proofs_Carry.
 From AwkBroadcast Require Import Broadcast Proofs_C04.
 From Coq Require Import Lia ZifyBool.
 
@@ -280,4 +280,357 @@ Proof.
   intros Hd Hn. unfold to_nparr, deregulate. cbn [reg_chain bind prodZ fold_right].
   replace (n * 1) with n by lia. destruct (zlen data <? n) eqn:E; [lia|].
   rewrite datum_z_all by (unfold take; now apply forallb_firstn). cbn [bind]. rewrite map_map. reflexivity.
+Qed.
+
+(* ------------------------------------------------------------------ the leaves: NumPy on two 1-d buffers of equal length *)
+Definition rows2 (t1 t2 : ty) (vs1 vs2 : list value) : list (list sarg) :=
+  map (fun xy : value * value => [(t1, fst xy); (t2, snd xy)]) (zip vs1 vs2).
+
+Lemma mapM_iota_zip {A B C} (g : Z -> res C) (h : A * B -> C) (l : list A) (m : list B) n :
+  zlen l = n -> zlen m = n ->
+  (forall i x y, get l i = Ok x -> get m i = Ok y -> g i = Ok (h (x, y))) ->
+  mapM g (iota n) = Ok (map h (zip l m)).
+Proof.
+  intros Hl Hm Hg. pose proof (zlen_nonneg l) as Hn.
+  destruct (mapM_total g (iota n)) as [ys Hys].
+  { intros i Hi. apply iota_In' in Hi.
+    destruct (get_ok l i ltac:(lia)) as [x Hx]. destruct (get_ok m i ltac:(lia)) as [y Hy]. eauto. }
+  rewrite Hys. f_equal. apply get_ext.
+  - rewrite (mapM_zlen _ _ _ Hys), zlen_iota, zlen_map, zlen_zip by lia. lia.
+  - intros i Hi. rewrite (mapM_zlen _ _ _ Hys), zlen_iota in Hi by lia.
+    rewrite (mapM_get _ _ _ i Hys), get_iota by lia. cbn [bind]. rewrite get_map, get_zip.
+    destruct (get_ok l i ltac:(lia)) as [x Hx]. destruct (get_ok m i ltac:(lia)) as [y Hy].
+    rewrite Hx, Hy. cbn. now apply Hg.
+Qed.
+
+Lemma nd_apply_1d op b1 b2 zs1 zs2 n :
+  zlen zs1 = n -> zlen zs2 = n ->
+  nd_apply op [(b1, ([n], zs1)); (b2, ([n], zs2))] =
+  Ok (Numpy (if lk op [b1; b2] then DBool else DInt64) [n]
+        (map (fun xy : Z * Z => DZ (lf op [b1; b2] [fst xy; snd xy])) (zip zs1 zs2))).
+Proof.
+  intros H1 H2. pose proof (zlen_nonneg zs1) as Hn. unfold nd_apply.
+  cbn [map fst snd length fold_right Nat.max pad_shape Nat.sub repeat app].
+  change (transpose 1 [[n]; [n]]) with [[n; n]]. cbn [mapM].
+  assert (Hd : dim_target [n; n] = Ok n).
+  { unfold dim_target. cbn [filter]. destruct (n =? 1) eqn:E; cbn [negb]; [f_equal; lia|].
+    cbn [forallb]. now rewrite Z.eqb_refl. }
+  rewrite Hd. cbn [bind multi]. 
+  assert (Hm : flat_map (fun i : Z => map (cons i) [[]]) (iota n) = map (fun i => [i]) (iota n)).
+  { induction (iota n) as [|i l IH]; [reflexivity|]. cbn [flat_map map app]. f_equal; try exact IH. }
+  rewrite Hm, mapM_map.
+  rewrite (mapM_iota_zip _ (fun xy : Z * Z => DZ (lf op [b1; b2] [fst xy; snd xy])) zs1 zs2 n H1 H2); [reflexivity|].
+  intros i x y Hx Hy. cbn [zip mapM fst snd flat_ix].
+  pose proof (get_range _ _ _ Hx) as Hi.
+  assert (Hix : 0 * n + (if n =? 1 then 0 else i) = i) by (destruct (n =? 1) eqn:E; lia).
+  rewrite Hix, Hx, Hy. reflexivity.
+Qed.
+
+Lemma leaf_value_zb dt d : is_dz d = true -> leaf_zb (TNum dt, leaf dt d) = Ok (dt_isbool dt, leaf_z dt d).
+Proof. destruct d; try discriminate. intros _. unfold leaf_zb, leaf, leaf_z. cbn [snd undz]. destruct dt; cbn; try reflexivity; now destruct (z =? 0). Qed.
+
+Lemma spec_leaf_row op ar fuel dt1 dt2 d1 d2 :
+  is_dz d1 = true -> is_dz d2 = true ->
+  spec_v op ar (S fuel) [(TNum dt1, leaf dt1 d1); (TNum dt2, leaf dt2 d2)] =
+  Ok (mk_leaf (lk op [dt_isbool dt1; dt_isbool dt2]) (lf op [dt_isbool dt1; dt_isbool dt2] [leaf_z dt1 d1; leaf_z dt2 d2])).
+Proof.
+  intros H1 H2. rewrite spec_v_S. cbv zeta. unfold rpad. cbn [map fst]. unfold rpad_cond. cbn [existsb is_listT orb andb].
+  cbn [map fst existsb badT is_optT is_listT is_recT orb mapM].
+  rewrite (leaf_value_zb dt1 d1 H1), (leaf_value_zb dt2 d2 H2). reflexivity.
+Qed.
+
+Lemma to_list_numpy1 dt n data vs :
+  to_list (Numpy dt [n] data) = Ok vs -> 0 <= n /\ n <= zlen data /\ vs = map (leaf dt) (take n data).
+Proof.
+  intros H. apply to_list_Numpy_inv in H as (n' & dims & E & Hs & Hd & Hn). inversion E; subst n' dims.
+  cbn [prodZ fold_right] in *. replace (n * 1) with n in * by lia. cbn [nest] in Hn. inversion Hn.
+  inversion Hs; subst. repeat split; auto.
+Qed.
+Lemma to_list_numpy1_ok dt n data : 0 <= n -> n <= zlen data -> to_list (Numpy dt [n] data) = Ok (map (leaf dt) (take n data)).
+Proof.
+  intros H0 Hn. rewrite to_list_Numpy. cbn [existsb prodZ fold_right]. destruct (n <? 0) eqn:E; [lia|]. cbn [orb].
+  replace (n * 1) with n by lia. destruct (zlen data <? n) eqn:E2; [lia|]. reflexivity.
+Qed.
+
+(* the whole leaf step: model result, its value, and the specification's value *)
+Lemma leaf_case op rec fuel dt1 dt2 n1 n2 d1 d2 vs1 vs2 :
+  jag (Numpy dt1 [n1] d1) = true -> jag (Numpy dt2 [n2] d2) = true ->
+  to_list (Numpy dt1 [n1] d1) = Ok vs1 -> to_list (Numpy dt2 [n2] d2) = Ok vs2 -> zlen vs1 = zlen vs2 ->
+  exists out, dispatch op None rec [MC (Numpy dt1 [n1] d1); MC (Numpy dt2 [n2] d2)] = Ok out /\
+              jag out = true /\ is_option_node out = false /\
+              to_list out = mapM (spec_v op false (S fuel))
+                              (rows2 (type_of (Numpy dt1 [n1] d1)) (type_of (Numpy dt2 [n2] d2)) vs1 vs2).
+Proof.
+  intros Hj1 Hj2 Hl1 Hl2 Hz.
+  pose proof (to_list_len _ _ Hl1) as Hc1. pose proof (to_list_len _ _ Hl2) as Hc2. cbn [clen] in Hc1, Hc2.
+  assert (E : n2 = n1) by lia. rewrite E in *. clear E Hc1 Hc2 Hz. rename n1 into n.
+  set (c1 := Numpy dt1 [n] d1) in *. set (c2 := Numpy dt2 [n] d2) in *.
+  destruct (to_list_numpy1 _ _ _ _ Hl1) as (Hn0 & Hd1 & ->). destruct (to_list_numpy1 _ _ _ _ Hl2) as (_ & Hd2 & ->).
+  cbn [jag c1 c2] in Hj1, Hj2.
+  set (t1 := take n d1) in *. set (t2 := take n d2) in *.
+  assert (Ht1 : zlen t1 = n) by (unfold t1; apply zlen_take; lia).
+  assert (Ht2 : zlen t2 = n) by (unfold t2; apply zlen_take; lia).
+  set (ks := [dt_isbool dt1; dt_isbool dt2]).
+  set (outd := map (fun xy : datum * datum => DZ (lf op ks [leaf_z dt1 (fst xy); leaf_z dt2 (snd xy)])) (zip t1 t2)).
+  set (rdt := if lk op ks then DBool else DInt64).
+  exists (Numpy rdt [n] outd).
+  assert (Hzo : zlen outd = n) by (unfold outd; rewrite zlen_map, zlen_zip; lia).
+  split; [|split; [|split; [reflexivity|]]].
+  - unfold dispatch. cbn [contents_of flat_map app]. pose proof (jag_rcond c1 c2 Hj1 Hj2) as Hr. cbv zeta in Hr. cbv zeta. rewrite Hr.
+    unfold checklength, all_eq. cbn [map clen c1 c2 forallb]. rewrite Z.eqb_refl. cbn [andb negb].
+    unfold getfunction. cbn [mapM]. unfold c1, c2.
+    rewrite (to_nparr_jag_numpy dt1 n d1 Hj1 Hd1), (to_nparr_jag_numpy dt2 n d2 Hj2 Hd2). cbn [bind all_somes].
+    fold t1 t2. rewrite nd_apply_1d by (rewrite zlen_map; assumption). cbn [rmap bind].
+    do 3 f_equal. unfold outd. rewrite zip_map, map_map. reflexivity.
+  - cbn [jag]. unfold outd. apply forallb_forall. intros x Hx. apply in_map_iff in Hx as (xy & <- & _). reflexivity.
+  - rewrite to_list_numpy1_ok by lia. rewrite take_all by lia.
+    unfold rows2. cbn [type_of type_of_p c1 c2 tl numpy_ty]. rewrite zip_map, map_map, mapM_map.
+    unfold outd. rewrite map_map. symmetry.
+    rewrite (mapM_ext_in _ (fun xy : datum * datum =>
+                              Ok (leaf rdt (DZ (lf op ks [leaf_z dt1 (fst xy); leaf_z dt2 (snd xy)]))))).
+    + apply mapM_pure.
+    + intros [x y] Hin. cbn [fst snd].
+      apply zip_In in Hin as [Hx Hy].
+      assert (Hdx : is_dz x = true) by (rewrite forallb_forall in Hj1; apply Hj1; unfold t1, take in Hx; eapply firstn_In'; eassumption).
+      assert (Hdy : is_dz y = true) by (rewrite forallb_forall in Hj2; apply Hj2; unfold t2, take in Hy; eapply firstn_In'; eassumption).
+      rewrite (spec_leaf_row op false fuel dt1 dt2 x y Hdx Hdy). f_equal. fold ks.
+      unfold mk_leaf, leaf, rdt. destruct (lk op ks); reflexivity.
+Qed.
+
+(* ------------------------------------------------------------------ types and values of the fragment *)
+Fixpoint jagT (t : ty) : bool :=
+  match t with
+  | TNum _ => true
+  | TList None None t' => jagT t'
+  | TOpt t' => jagT t' && negb (is_optT t')
+  | _ => false
+  end.
+Lemma type_of_jag c : jag c = true -> jagT (type_of c) = true /\ is_optT (type_of c) = is_option_node c /\
+                                       is_listT (type_of c) = is_list_node c.
+Proof.
+  unfold type_of.
+  induction c as [dt shape data| |w o c IHc|w s e c IHc|c size zl IHc|w ix c IHc|w ix c IHc|m vw c IHc
+                 |m vw lsb n c IHc|c IHc|w t ix cs IHcs|cs ks n IHcs|arr rn c IHc] using content_ind';
+    try discriminate; cbn [jag type_of_p strflag].
+  - destruct shape as [|n [|d ds]]; try discriminate. intros _. cbn. auto.
+  - intros H. destruct (IHc H) as (H1 & _ & _). cbn [jagT is_optT is_listT is_option_node is_list_node]. auto.
+  - intros H. destruct (IHc H) as (H1 & _ & _). cbn [jagT is_optT is_listT is_option_node is_list_node]. auto.
+  - intros H. apply andb_prop in H as [Hj Hn]. destruct (IHc Hj) as (H1 & H2 & _).
+    cbn [jagT is_optT is_listT is_option_node is_list_node]. rewrite H1, H2, Hn. auto.
+Qed.
+
+Lemma jagT_rpad t1 t2 : jagT t1 = true -> jagT t2 = true -> rpad_cond [t1; t2] = false.
+Proof.
+  intros H1 H2. unfold rpad_cond. cbn [existsb forallb].
+  assert (P : forall t, jagT t = true -> is_listT t = true -> pure_reg t = false).
+  { intros t Ht Hl. destruct t as [| |[z|] [b|] t0| | |]; try discriminate; reflexivity. }
+  destruct (is_listT t1) eqn:L1; [rewrite (P t1 H1 L1); cbn; reflexivity|].
+  destruct (is_listT t2) eqn:L2; [rewrite (P t2 H2 L2); cbn; now rewrite andb_false_r|]. reflexivity.
+Qed.
+Lemma jagT_notbad t : jagT t = true -> badT t = false.
+Proof. destruct t as [| |[z|] [b|] t0| | |]; try discriminate; reflexivity. Qed.
+
+(* values of a non-option node are never None *)
+Lemma jag_nonopt_values c vs :
+  jag c = true -> is_option_node c = false -> to_list c = Ok vs -> Forall (fun v => is_none v = false) vs.
+Proof.
+  intros Hj Ho Hl.
+  destruct c as [dt shape data| |w o c'|w s e c'|c' size zl|w ix0 c'|w ix0 c'|m vw c'|m vw lsb n c'|c'|w t ix0 cs|cs ks n|arr rn c'];
+    try discriminate.
+  - destruct shape as [|n [|d ds]]; try discriminate. destruct (to_list_numpy1 _ _ _ _ Hl) as (_ & _ & ->).
+    apply Forall_forall. intros v Hv. apply in_map_iff in Hv as (d & <- & _). unfold leaf. destruct dt; try reflexivity. now destruct d.
+  - rewrite to_list_ListOffset in Hl. apply bind_Ok in Hl as (vs0 & _ & Hl). apply rmap_Ok in Hl as (ls & _ & ->).
+    apply Forall_forall. intros v Hv. apply in_map_iff in Hv as (l & <- & _). reflexivity.
+  - rewrite to_list_ListA in Hl. apply bind_Ok in Hl as (vs0 & _ & Hl). apply rmap_Ok in Hl as (ls & _ & ->).
+    apply Forall_forall. intros v Hv. apply in_map_iff in Hv as (l & <- & _). reflexivity.
+Qed.
+
+(* ------------------------------------------------------------------ masks *)
+Fixpoint scatter (mask : list bool) (xs : list value) : list value :=
+  match mask with
+  | [] => []
+  | true :: m => VNone :: scatter m xs
+  | false :: m => match xs with x :: r => x :: scatter m r | [] => [] end
+  end.
+Definition nfalse (mask : list bool) : Z := zlen (filter negb mask).
+
+Lemma kept_cons {A} (x : A) l b m : kept (x :: l) (b :: m) = (if b then [] else [x]) ++ kept l m.
+Proof. reflexivity. Qed.
+Lemma kept_nil_l {A} m : @kept A [] m = [].
+Proof. reflexivity. Qed.
+Lemma zlen_kept {A} (l : list A) : forall m, length m = length l -> zlen (kept l m) = nfalse m.
+Proof.
+  unfold nfalse. induction l as [|x l IH]; intros [|b m] H; try discriminate; [reflexivity|].
+  rewrite kept_cons. cbn [filter]. destruct b; cbn [negb app]; [apply IH; cbn in H; lia|].
+  rewrite !zlen_cons. rewrite IH by (cbn in H; lia). reflexivity.
+Qed.
+Lemma kept_map {A B} (f : A -> B) l : forall m, kept (map f l) m = map f (kept l m).
+Proof.
+  induction l as [|x l IH]; intros [|b m]; try reflexivity. cbn [map]. rewrite !kept_cons, IH, map_app.
+  now destruct b.
+Qed.
+Lemma kept_zip {A B} (l : list A) : forall (l' : list B) m, kept (zip l l') m = zip (kept l m) (kept l' m).
+Proof.
+  induction l as [|x l IH]; intros [|y l'] [|b m]; try reflexivity.
+  - cbn [zip]. rewrite kept_nil_l. now destruct (kept (x :: l) (b :: m)).
+  - cbn [zip]. rewrite !kept_cons, IH. now destruct b.
+Qed.
+
+Lemma or_masks_length a : forall b, length a = length b -> length (or_masks a b) = length a.
+Proof. induction a as [|x a IH]; intros [|y b] H; try discriminate; [reflexivity|]. cbn. f_equal. apply IH. cbn in H. lia. Qed.
+Lemma or_masks_false_r a : forall b, length a = length b -> forallb negb b = true -> or_masks a b = a.
+Proof.
+  induction a as [|x a IH]; intros [|y b] H Hb; try discriminate; [reflexivity|]. cbn in *.
+  apply andb_prop in Hb as [Hy Hb]. destruct y; [discriminate|]. rewrite orb_false_r. f_equal. apply IH; [lia|exact Hb].
+Qed.
+Lemma or_masks_false_l a : forall b, length a = length b -> forallb negb a = true -> or_masks a b = b.
+Proof.
+  induction a as [|x a IH]; intros [|y b] H Ha; try discriminate; [reflexivity|]. cbn in *.
+  apply andb_prop in Ha as [Hx Ha]. destruct x; [discriminate|]. cbn. f_equal. apply IH; [lia|exact Ha].
+Qed.
+
+(* the index that puts the results back under the mask *)
+Lemma count_index_scatter outvs : forall mask pre,
+  nfalse mask = zlen outvs ->
+  mapM (fun i => pick_opt (pre ++ outvs) (0 <=? i) i) (count_index (zlen pre) mask) = Ok (scatter mask outvs).
+Proof.
+  unfold nfalse. induction outvs as [|x outvs IH].
+  - induction mask as [|b mask IHm]; intros pre H; [reflexivity|]. destruct b.
+    + cbn [count_index mapM scatter]. cbn [filter negb] in H. unfold pick_opt at 1. cbn. rewrite (IHm pre H). reflexivity.
+    + cbn [filter negb] in H. rewrite zlen_cons, zlen_nil in H. pose proof (zlen_nonneg (filter negb mask)). lia.
+  - induction mask as [|b mask IHm]; intros pre H.
+    + cbn [filter] in H. rewrite zlen_cons, zlen_nil in H. pose proof (zlen_nonneg outvs). lia.
+    + destruct b.
+      * cbn [count_index mapM scatter]. cbn [filter negb] in H. unfold pick_opt at 1. cbn. rewrite (IHm pre H). reflexivity.
+      * cbn [count_index mapM scatter]. cbn [filter negb] in H. rewrite !zlen_cons in H.
+        pose proof (zlen_nonneg pre). unfold pick_opt at 1. destruct (0 <=? zlen pre) eqn:E; [|lia].
+        rewrite get_app2 by lia. replace (zlen pre - zlen pre) with 0 by lia. cbn [get bind]. rewrite get_cons_0. cbn [bind].
+        specialize (IH mask (pre ++ [x])).
+        assert (Hz : zlen (pre ++ [x]) = zlen pre + 1) by (rewrite zlen_app, zlen_cons, zlen_nil; lia).
+        assert (Ha : (pre ++ [x]) ++ outvs = pre ++ x :: outvs) by (rewrite <- app_assoc; reflexivity).
+        rewrite Hz, Ha in IH. rewrite IH by lia. reflexivity.
+Qed.
+
+(* rows with a missing value give None, the others are looked at without their options *)
+Lemma mapM_scatter {A} (g h : A -> res value) (isn : A -> bool) rows :
+  (forall r, In r rows -> g r = if isn r then Ok VNone else h r) ->
+  match mapM h (kept rows (map isn rows)) with
+  | Ok ys => mapM g rows = Ok (scatter (map isn rows) ys)
+  | Err e => mapM g rows = Err e
+  end.
+Proof.
+  induction rows as [|r rows IH]; intros Hg; [reflexivity|].
+  cbn [map]. rewrite kept_cons. pose proof (Hg r (or_introl eq_refl)) as Hr.
+  assert (Hg' : forall r0, In r0 rows -> g r0 = if isn r0 then Ok VNone else h r0) by (intros; apply Hg; now right).
+  specialize (IH Hg'). destruct (isn r) eqn:E.
+  - cbn [app]. destruct (mapM h (kept rows (map isn rows))) as [ys|e].
+    + rewrite mapM_cons, Hr. cbn [bind]. rewrite IH. reflexivity.
+    + rewrite mapM_cons, Hr. cbn [bind]. rewrite IH. reflexivity.
+  - cbn [app]. rewrite (mapM_cons h). destruct (h r) as [y|e] eqn:Ehr; cbn [bind].
+    + destruct (mapM h (kept rows (map isn rows))) as [ys|e]; cbn [bind].
+      * rewrite mapM_cons, Hr. cbn [bind]. rewrite IH. reflexivity.
+      * rewrite mapM_cons, Hr. cbn [bind]. rewrite IH. reflexivity.
+    + rewrite mapM_cons, Hr. reflexivity.
+Qed.
+
+(* ------------------------------------------------------------------ the option step, one input at a time *)
+Definition opt_proj (mask : list bool) (c : content) : res content :=
+  if is_option_node c then do oi <- option_index c; ccarry (snd oi) (kept (fst oi) mask)
+  else ccarry c (kept (iota (zlen mask)) mask).
+Definition normix (i : Z) : Z := if i <? 0 then -1 else i.
+
+Lemma pick_kept vs' : forall idx vs mask,
+  mapM (fun i => pick_opt vs' (0 <=? i) i) idx = Ok vs ->
+  Forall2 (fun (v : value) (b : bool) => is_none v = true -> b = true) vs mask ->
+  Forall (fun v => is_none v = false) vs' ->
+  mapM (get vs') (kept (map normix idx) mask) = Ok (kept vs mask) /\
+  Forall (fun i => 0 <= i < zlen vs') (kept (map normix idx) mask).
+Proof.
+  induction idx as [|i idx IH]; intros vs mask Hm Hsub Hnn.
+  - cbn in Hm. inversion Hm; subst. inversion Hsub; subst. split; [reflexivity|constructor].
+  - rewrite mapM_cons in Hm. apply bind_Ok in Hm as (v & Hv & Hm). apply bind_Ok in Hm as (vs0 & Hvs & Hm). inversion Hm; subst.
+    inversion Hsub as [|? b ? mask' Hb Hsub']; subst. destruct (IH _ _ Hvs Hsub' Hnn) as [IH1 IH2].
+    cbn [map]. rewrite !kept_cons. destruct b; cbn [app]; [split; assumption|].
+    unfold pick_opt in Hv. destruct (0 <=? i) eqn:E.
+    + assert (Hni : normix i = i) by (unfold normix; destruct (i <? 0) eqn:E2; lia). rewrite Hni.
+      rewrite mapM_cons, Hv. cbn [bind]. rewrite IH1. split; [reflexivity|].
+      constructor; [|exact IH2]. apply get_range in Hv. exact Hv.
+    + inversion Hv; subst v. specialize (Hb eq_refl). discriminate.
+Qed.
+
+Lemma own_mask vs' : forall idx vs,
+  mapM (fun i => pick_opt vs' (0 <=? i) i) idx = Ok vs -> Forall (fun v => is_none v = false) vs' ->
+  map (fun i => normix i <? 0) idx = map is_none vs.
+Proof.
+  induction idx as [|i idx IH]; intros vs Hm Hnn.
+  - cbn in Hm. now inversion Hm.
+  - rewrite mapM_cons in Hm. apply bind_Ok in Hm as (v & Hv & Hm). apply bind_Ok in Hm as (vs0 & Hvs & Hm). inversion Hm; subst.
+    cbn [map]. rewrite (IH _ Hvs Hnn). f_equal. unfold pick_opt in Hv. unfold normix. destruct (0 <=? i) eqn:E.
+    + destruct (i <? 0) eqn:E2; [lia|]. rewrite Forall_forall in Hnn.
+      assert (In v vs') by (unfold get in Hv; destruct (i <? 0); [discriminate|]; destruct (nth_error vs' (Z.to_nat i)) eqn:En; [|discriminate]; inversion Hv; subst; eapply nth_error_In; eassumption).
+      rewrite (Hnn v H). lia.
+    + inversion Hv; subst. destruct (i <? 0) eqn:E2; [reflexivity|lia].
+Qed.
+
+Lemma bytemask_jag w idx c' vs :
+  jag (IndexedOption w idx c') = true -> to_list (IndexedOption w idx c') = Ok vs ->
+  bytemask_of (IndexedOption w idx c') = Ok (map is_none vs).
+Proof.
+  intros Hj Hl. cbn [jag] in Hj. apply andb_prop in Hj as [Hj Ho]. apply negb_true_iff in Ho.
+  rewrite to_list_IndexedOption in Hl. apply bind_Ok in Hl as (vs' & Hl' & Hl).
+  pose proof (jag_nonopt_values _ _ Hj Ho Hl') as Hnn.
+  unfold bytemask_of, option_index. cbn [bind fst]. rewrite map_map. f_equal. apply (own_mask vs' idx vs Hl Hnn).
+Qed.
+
+Lemma gather_kept_iota {A} (l : list A) : forall (mask : list bool) (pre : list A),
+  length mask = length l ->
+  mapM (get (pre ++ l)) (kept (iota_nat (zlen pre) (length l)) mask) = Ok (kept l mask).
+Proof.
+  induction l as [|x l IH]; intros [|b mask] pre H; try discriminate; [reflexivity|].
+  cbn [length iota_nat]. rewrite !kept_cons.
+  assert (Hz : zlen (pre ++ [x]) = zlen pre + 1) by (rewrite zlen_app, zlen_cons, zlen_nil; lia).
+  assert (Ha : (pre ++ [x]) ++ l = pre ++ x :: l) by (rewrite <- app_assoc; reflexivity).
+  specialize (IH mask (pre ++ [x]) ltac:(cbn in H; lia)). rewrite Hz, Ha in IH.
+  destruct b; cbn [app]; [exact IH|].
+  rewrite mapM_cons. pose proof (zlen_nonneg pre). rewrite get_app2 by lia. replace (zlen pre - zlen pre) with 0 by lia.
+  rewrite get_cons_0. cbn [bind]. rewrite IH. reflexivity.
+Qed.
+
+Lemma kept_in {A} (x : A) l : forall m, In x (kept l m) -> In x l.
+Proof.
+  induction l as [|y l IH]; intros [|b m] H; try contradiction. rewrite kept_cons in H.
+  apply in_app_or in H as [H|H]; [destruct b; [contradiction|]; destruct H; [now left|contradiction]|right; eapply IH; eassumption].
+Qed.
+
+(* what the option step hands down for ONE input: the elements at the positions that are present in all inputs *)
+Lemma opt_next c vs mask :
+  jag c = true -> to_list c = Ok vs ->
+  Forall2 (fun (v : value) (b : bool) => is_none v = true -> b = true) vs mask ->
+  exists next, opt_proj mask c = Ok next /\ jag next = true /\ is_option_node next = false /\
+               to_list next = Ok (kept vs mask) /\ type_of next = strip_opt_t (type_of c) /\
+               (csize next <= csize c)%nat /\ (is_option_node c = true -> (csize next < csize c)%nat).
+Proof.
+  intros Hj Hl Hsub. unfold opt_proj. pose proof (to_list_len _ _ Hl) as Hlen.
+  assert (Hml : length mask = length vs) by (clear -Hsub; induction Hsub; cbn; congruence).
+  destruct (is_option_node c) eqn:Ho.
+  - destruct c as [dt shape data| |w o c'|w s e c'|c' size zl|w ix0 c'|w ix0 c'|m vw c'|m vw lsb n c'|c'|w t ix0 cs|cs ks n|arr rn c'];
+      try discriminate.
+    cbn [option_index bind fst snd]. pose proof Hj as Hj0. cbn [jag] in Hj. apply andb_prop in Hj as [Hj Hno]. apply negb_true_iff in Hno.
+    rewrite to_list_IndexedOption in Hl. apply bind_Ok in Hl as (vs' & Hl' & Hl).
+    pose proof (jag_nonopt_values _ _ Hj Hno Hl') as Hnn.
+    destruct (pick_kept vs' ix0 vs mask Hl Hsub Hnn) as [Hg Hr].
+    change (map (fun i : Z => if i <? 0 then -1 else i) ix0) with (map normix ix0).
+    destruct (ccarry_jag c' vs' (kept (map normix ix0) mask) Hj Hl') as (next & Hc & Hjn & Hln & Htn & Hsn & _ & Hon & _ & _).
+    { rewrite <- (to_list_len _ _ Hl'). exact Hr. }
+    exists next. rewrite Hc. repeat split; try assumption; try congruence.
+    + unfold type_of in *. cbn [type_of_p strip_opt_t]. exact Htn.
+    + cbn [csize]. lia.
+    + intros _. cbn [csize]. lia.
+  - destruct (ccarry_jag c vs (kept (iota (zlen mask)) mask) Hj Hl) as (next & Hc & Hjn & Hln & Htn & Hsn & _ & Hon & _ & _).
+    { apply Forall_forall. intros i Hi. apply kept_in in Hi. apply iota_In' in Hi. unfold zlen in *. lia. }
+    exists next. rewrite Hc. repeat split; try assumption; try congruence; try lia.
+    + rewrite Hln. unfold iota. replace (Z.to_nat (zlen mask)) with (length vs) by (unfold zlen; lia).
+      exact (gather_kept_iota vs mask [] Hml).
+    + rewrite Htn. destruct (type_of_jag c Hj) as (_ & Ht & _). rewrite Ho in Ht.
+      destruct (type_of c); try reflexivity. discriminate.
 Qed.
